@@ -17,7 +17,9 @@ KeyOps == {"encrypt_with", "sign_with", "decrypt_with", "verify_with", "wrap_pie
            "seal_public_with", "seal_local_with", "nonce_seal_public_with", "nonce_seal_local_with", "unseal_public_with", "unseal_local_with"}
 \* operations on a key of some kind (same version)
 UnaryOps == {"wrap_pie", "password_wrap", "public_key", "display", "debug", "expose_to_string", "from_bytes32", "random", "id",
-             "clone", "private_field", "unseal_key_with", "seal_to"}
+             "clone", "private_field", "unseal_key_with", "seal_to",
+             \* a token type instantiated at a key kind: only the two purposes are token purposes
+             "token_of_purpose"}
 \* operations on tokens
 TokenOps == {"decrypt_encrypted", "verify_signed", "verify_encrypted", "decrypt_signed",
              "display_sealed", "display_unsealed", "serde_sealed", "serde_unsealed", "claims_of_sealed", "footer_unverified",
@@ -54,6 +56,7 @@ Permitted(p) ==
     [] p.op = "seal_key" -> p.k = "Local"                                \* only local keys are sealed
     [] p.op = "seal_to" -> p.k = "PkePublic"                             \* only to a key-sealing public key
     [] p.op = "unseal_key_with" -> p.k = "PkeSecret"
+    [] p.op = "token_of_purpose" -> p.k \in {"Local", "Public"}
     [] p.op = "public_key" -> p.k = "Secret"
     [] p.op = "display" -> p.k = "Public"                                \* secrets cannot be printed
     [] p.op = "debug" -> FALSE
